@@ -590,9 +590,23 @@ fn c04(case: &Case, ctx: &Ctx, rpt: &mut Report) {
                                     ast.seq.toks.first().map(|t| &t.node),
                                     Some(Node::Tree { lead: true, trail: true })
                                 );
+                                let rep_edge_quirk = Quirks {
+                                    rooted_leading_tree_is_dotstar: false,
+                                    rep_edge_tree_any_form: true,
+                                };
+                                let both_quirks = Quirks {
+                                    rooted_leading_tree_is_dotstar: true,
+                                    rep_edge_tree_any_form: true,
+                                };
                                 let key = if first_is_rooted_tree
                                     && segmentation_ok(ast, model, &pc, &caps, rooted_quirk) == Tri::Yes
                                 {
+                                    Some("rooted-leading-tree-captures-partial-component")
+                                }
+                                else if segmentation_ok(ast, model, &pc, &caps, rep_edge_quirk) == Tri::Yes {
+                                    Some("tree-wildcard-at-edge-of-repetition-body-encoded-as-expression-edge")
+                                }
+                                else if first_is_rooted_tree && segmentation_ok(ast, model, &pc, &caps, both_quirks) == Tri::Yes {
                                     Some("rooted-leading-tree-captures-partial-component")
                                 }
                                 else {
